@@ -14,11 +14,12 @@ var All []mc.Property
 
 func register(p mc.Property) { All = append(All, p) }
 
-// fill returns n position-dependent bytes.
+// fill returns n position-dependent bytes (no power-of-two period, so that an offset that
+// wraps at 2^8 or 2^16 lands on different content).
 func fill(n int, seed byte) []byte {
 	b := make([]byte, n)
 	for i := range b {
-		b[i] = byte(i*7) + seed
+		b[i] = byte(i*7+(i>>8)*13+(i>>16)*29) + seed
 	}
 	return b
 }
@@ -104,4 +105,11 @@ func scribble(b []byte) {
 	for i := range b {
 		b[i] = 0xEE
 	}
+}
+
+func maxI(a, b int) int {
+	if a > b {
+		return a
+	}
+	return b
 }
